@@ -63,6 +63,11 @@ pub fn build_graph<IntT: for<'a> UInt<'a>>(
     kmer_iter
         .par_bridge()
         .for_each(|(int_kmer, int_middle_base_vec)| {
+            #[cfg(feature = "verif-hooks")]
+            crate::verif_hooks::point(
+                "build_graph",
+                (int_kmer & IntT::skalo_mask(31)).to_u64().unwrap_or(0),
+            );
             let (kmer_left, kmer_right) = decode_kmer(len_kmer, int_kmer, mask, mask);
 
             // combine samples by middle-base using degenerate code
